@@ -616,3 +616,168 @@ func planC14(tier string, seed int64) (*Plan, error) {
 	}
 	return p, nil
 }
+
+// ---- C11 ----
+
+var c11Exts = []string{"strike", "table", "tasklist", "footnote", "deflist", "typographer", "linkify", "cjk", "cjkesc", "cjkcss3"}
+
+// alphabets that stress the machinery each extension shares with the core (never containing its trigger set)
+var c11Alpha = map[string]string{
+	"strike":      "a *_\n\\`[",
+	"table":       "a|:\n *>",
+	"tasklist":    "a-x] \n*1.",
+	"footnote":    "a[]^:\n (",
+	"deflist":     "a\n ~-*>",
+	"typographer": "a\n *_`&;",
+	"linkify":     "a \n#*_(w.",
+	"cjk":         "a\n *_\\.[",
+	"cjkesc":      "a\n *_\\.[",
+	"cjkcss3":     "a\n *_\\.[",
+}
+
+func planC11(tier string, seed int64) (*Plan, error) {
+	p := &Plan{MustReach: []string{"done"}}
+	thorough := tier == "thorough"
+	var jobs []interp.Job
+	bases := func(x string) []string {
+		// base configurations the extension is added to: core, and "the other extensions"
+		switch x {
+		case "cjk", "cjkesc", "cjkcss3":
+			return []string{"core", "gfm,deflist,footnote,typographer"}
+		case "strike", "table", "tasklist", "linkify":
+			var rest []string
+			for _, o := range []string{"table", "strike", "linkify", "tasklist"} {
+				if o != x {
+					rest = append(rest, o)
+				}
+			}
+			return []string{"core", rest[0] + "," + rest[1] + "," + rest[2] + ",deflist,footnote,typographer,cjk"}
+		}
+		var rest string
+		for _, o := range []string{"deflist", "footnote", "typographer"} {
+			if o != x {
+				rest += "," + o
+			}
+		}
+		return []string{"core", "gfm" + rest + ",cjk"}
+	}
+	for i, x := range c11Exts {
+		bs := bases(x)
+		for bi, b := range bs {
+			ro := ""
+			if bi == 1 {
+				ro = "unsafe,xhtml"
+			}
+			for n := 0; n <= 2; n++ {
+				jobs = append(jobs, job("H_c11_conservative", "ext", x, "base", b, "ropts", ro, "n", n))
+			}
+			la := 4
+			if thorough {
+				la = 6
+			}
+			jobs = append(jobs, job("H_c11_conservative", "ext", x, "base", b, "ropts", ro, "n", la, "alpha", c11Alpha[x]))
+			if bi == 0 {
+				jobs = append(jobs, job("H_c11_conservative", "ext", x, "base", b, "n", la+1, "alpha", c11Alpha[x][:5]))
+			}
+		}
+		if thorough || int(seed+int64(i))%5 == 0 {
+			jobs = append(jobs, job("H_c11_conservative", "ext", x, "base", "core", "n", 3))
+		}
+		if thorough {
+			jobs = append(jobs, job("H_c11_conservative", "ext", x, "base", bs[1], "popts", "autoid,attr", "n", 3))
+		}
+	}
+	// the two shapes of the design-time findings, long enough to hold them
+	jobs = append(jobs, job("H_c11_conservative", "ext", "linkify", "base", "core", "n", 7, "alpha", "a \n#"))
+	jobs = append(jobs, job("H_c11_conservative", "ext", "cjk", "base", "core", "n", 6, "alpha", "a\n*["))
+	// GFM == its four members, no Assume
+	for _, ex := range []string{"", "footnote,typographer"} {
+		for n := 0; n <= 2; n++ {
+			jobs = append(jobs, job("H_c11_gfm", "extra", ex, "n", n))
+		}
+		jobs = append(jobs, job("H_c11_gfm", "extra", ex, "n", 4, "alpha", "a|-\n~[] x:w.@"))
+	}
+	if thorough {
+		jobs = append(jobs, job("H_c11_gfm", "n", 3))
+		jobs = append(jobs, job("H_c11_gfm", "n", 6, "alpha", "a|-\n~:w."))
+	}
+	// corpus windows: documents that already lack the trigger set
+	docs, err := LoadCorpus()
+	if err != nil {
+		return nil, err
+	}
+	nwin := 12
+	if thorough {
+		nwin = 250
+	}
+	for i, x := range c11Exts {
+		var ok []Doc
+		for _, d := range docs {
+			if !hasTrigger(x, d.Markdown) {
+				ok = append(ok, d)
+			}
+		}
+		for _, sl := range corpusSlice(ok, seed+int64(i), 120, nwin) {
+			jobs = append(jobs, job("H_c11_conservative", "ext", x, "base", "core", "ropts", "unsafe", "seed", sl.D.Markdown, "pos", sl.Pos, "window", 1))
+		}
+	}
+	p.Jobs = jobs
+	p.Bounds = map[string]interface{}{
+		"extensions":    fmt.Sprint(c11Exts) + " (cjk = extension.CJK, cjkesc = escaped space only, cjkcss3 = CSS3-draft line breaks), each added to {core, all other built-in extensions}",
+		"S(2)":          "every byte string of length 0..2 without the trigger set, both bases; S(3) for a seeded fifth of the extensions (all in thorough)",
+		"S(L,alphabet)": fmt.Sprintf("length 4 (thorough 6) over a per-extension 8-byte alphabet and length 5 (7) over its first 5 bytes: %v", c11Alpha),
+		"findings":      "S(7,{a,space,LF,#}) Linkify; S(6,{a,LF,*,[}) CJK",
+		"GFM":           "GFM vs Table+Strikethrough+Linkify+TaskList: S(2) and S(4,{a,|,-,LF,~,[,],space,x,:,w,.,@}) with and without Footnote+Typographer",
+		"W(C,1)":        fmt.Sprintf("%d seeded (trigger-free corpus document, offset) pairs per extension with one symbolic byte (assumed outside the trigger set)", nwin),
+		"outside":       "longer inputs; combinations of parser options other than autoid+attr",
+	}
+	p.Rule = "two conversions per path (with and without the extension), outputs asserted byte-equal"
+	return p, nil
+}
+
+func hasTrigger(ext, s string) bool {
+	has := func(set string) bool {
+		for i := 0; i < len(s); i++ {
+			for j := 0; j < len(set); j++ {
+				if s[i] == set[j] {
+					return true
+				}
+			}
+		}
+		return false
+	}
+	sub := func(t string) bool {
+		for i := 0; i+len(t) <= len(s); i++ {
+			if s[i:i+len(t)] == t {
+				return true
+			}
+		}
+		return false
+	}
+	switch ext {
+	case "strike":
+		return has("~")
+	case "table":
+		return has("-")
+	case "tasklist":
+		return has("[")
+	case "footnote":
+		return sub("[^")
+	case "deflist":
+		return has(":")
+	case "typographer":
+		return has("'\"-.<>")
+	case "linkify":
+		return has(":@") || sub("www.") || sub("ww") // a window byte could complete www.
+	case "cjk", "cjkesc", "cjkcss3":
+		for i := 0; i < len(s); i++ {
+			if s[i] >= 0x80 {
+				return true
+			}
+		}
+		return sub("\\ ") || sub("\\")
+	}
+	return true
+}
+
+func init() { Plans["C11"] = planC11 }
